@@ -185,6 +185,14 @@ real, intent(inout) :: x
 x = 2.0
 end subroutine second_{K}
 """
+    if kind == 'program':
+        return f"""program main_{K}
+implicit none
+integer :: i
+i = {K}
+if (i .gt. 3) i = 3
+end program main_{K}
+"""
     raise HarnessError(f'unknown snippet kind {kind}')
 
 
@@ -305,7 +313,7 @@ class LintEngine(Engine):
     fault_kinds = ('fault_unparsable_file', 'fault_nonutf8_file')
     probes = ('interleaved_between_items_and_append', 'completion_order_differs_from_submission',
               'failing_file_finished_first', 'failing_file_finished_last', 'sched_choice_points',
-              'fix_runs', 'overlapping_patterns')
+              'fix_runs', 'overlapping_patterns', 'strict_mode_runs', 'spawned_workers')
     nontrivial_rule = ('a run is non-trivial if at some scheduling step >=2 actors (main thread, worker tasks) were '
                        'runnable; distinct = distinct event-history digest (start/end/proxy-request/fs events)')
     hashseed_independent = True
@@ -321,12 +329,44 @@ class LintEngine(Engine):
         self.CT = CT
         self.rules = rules
         self.rule_defaults = {n: _deep(getattr(rules, n).config) for n in rules.__all__}
+        self.loki_config = loki_config
+        self.config_at_import = dict(loki_config.items())
         loki_config['debug'] = False
+        self.config_at_import['debug'] = False
         logging.getLogger('Loki').setLevel(logging.CRITICAL + 1)
         from loki.logging import default_logger, logger  # pylint: disable=import-outside-toplevel
         default_logger.setLevel(logging.CRITICAL + 1)
         logger.setLevel(logging.CRITICAL + 1)
         rec_handler_class()
+
+    def process_globals(self):
+        """Process-global mutable state that real worker processes do *not* share with the parent."""
+        from collections import OrderedDict  # pylint: disable=import-outside-toplevel
+        cfg = self.loki_config
+        rules = self.rules
+
+        def get_cfg():
+            return dict(cfg.items())
+
+        def set_cfg(st):
+            for k in list(cfg.keys()):
+                if k not in st:
+                    OrderedDict.__delitem__(cfg, k)
+            for k, v in st.items():
+                OrderedDict.__setitem__(cfg, k, v)      # no callbacks: this is a context switch
+
+        def get_rules():
+            return {n: _deep(getattr(rules, n).config) for n in rules.__all__}
+
+        def set_rules(st):
+            for n, c in st.items():
+                d = getattr(rules, n).config
+                d.clear()
+                d.update(_deep(c))
+
+        cells = [('loki.config', get_cfg, set_cfg), ('rule config dicts', get_rules, set_rules)]
+        spawn = [dict(self.config_at_import), _deep(self.rule_defaults)]
+        return pool.ProcessGlobals(cells, spawn)
 
     # -- generation -----------------------------------------------------------
     def gen(self, g, prop, tier):
@@ -338,7 +378,7 @@ class LintEngine(Engine):
             kind = g.weighted('kind', [('clean', 2), ('noimplicit', 2), ('ops', 3), ('ops2', 2), ('banned', 2),
                                        ('nokind', 2), ('nested', 1), ('module', 1), ('badmodule', 1),
                                        ('broken', 2), ('garbage', 1), ('nonutf8', 1), ('empty', 1),
-                                       ('manyargs', 1), ('twounits', 2)])
+                                       ('manyargs', 1), ('twounits', 2), ('program', 2)])
             d = g.pick('dir', dirs)
             ext = g.pick('ext', ['.F90', '.F90', '.f90'])
             files.append({'path': (d + '/' if d else '') + f'f{i}{ext}', 'kind': kind, 'k': i})
@@ -363,6 +403,7 @@ class LintEngine(Engine):
             'junit': g.flip('junit'), 'violations': g.flip('viol'), 'line_hashes': g.flip('lh'),
             'rule_cfg': g.flip('rulecfg', 1, 4),
             'fs_preempt': g.flip('fspre', 3, 4),
+            'strict_mode': g.flip('strict', 1, 4),
         }
         return scen
 
@@ -393,7 +434,7 @@ class LintEngine(Engine):
                 c = self.clone(s)
                 c['max_workers'] = w
                 yield c
-        for key in ('junit', 'violations', 'line_hashes', 'rule_cfg', 'fix', 'fs_preempt'):
+        for key in ('junit', 'violations', 'line_hashes', 'rule_cfg', 'fix', 'fs_preempt', 'strict_mode'):
             if s[key]:
                 c = self.clone(s)
                 c[key] = False
@@ -444,6 +485,7 @@ class LintEngine(Engine):
         if scenario['rule_cfg']:
             config['CodeBodyRule'] = {'max_nesting_depth': 2}
             config['MaxDummyArgsRule'] = {'max_num_arguments': 10}
+        self.loki_config['frontend-strict-mode'] = bool(scenario.get('strict_mode'))
         SINK.pop(tag, None)
         # harness-side knowledge (pathlib only): files matched by more than one include pattern
         hits = Counter(str(p.relative_to(tree)) for pat in scenario['include'] for p in tree.rglob(pat))
@@ -460,6 +502,8 @@ class LintEngine(Engine):
             err = e
         except Exception as e:  # pylint: disable=broad-except
             err = e
+        finally:
+            self.loki_config['frontend-strict-mode'] = False
         config = None
         gc.collect()        # LazyTextfile flushes in __del__ (observation at quiescence)
         res = {'count': count, 'err': err, 'rec': SINK.pop(tag, []),
@@ -478,6 +522,7 @@ class LintEngine(Engine):
         sim = pool.Sim(run, max_steps=20000, dispatch_latencies=(0.0, 0.0, 0.01), submit_delays=(0.0, 0.0, 0.001),
                        op_delays=(0.0, 0.0, 0.002))
         pool.install(sim)
+        sim.use_process_globals(self.process_globals())
         for f in scenario['files']:
             if f['kind'] in ('broken', 'garbage'):
                 run.probe('fault_unparsable_file')
@@ -485,6 +530,8 @@ class LintEngine(Engine):
                 run.probe('fault_nonutf8_file')
         if scenario['fix']:
             run.probe('fix_runs')
+        if scenario.get('strict_mode'):
+            run.probe('strict_mode_runs')
         try:
             patches.set(self.W, 'ProcessPoolExecutor', pool.SimExecutor)
             patches.set(self.W, 'Manager', pool.SimManager)
